@@ -37,6 +37,19 @@ def pair(op, texts):
 
 def run(ctx):
     res = common.proof_gate(ctx)
+    # part b (printer round trip of the renamed tree) imports builder-C08's Props/C08: audited
+    # separately; if it does not build (C08 mid-edit) it is listed as not checked, not as a C15 failure
+    partb = "checked"
+    okb, _ = common.build_lean(["SamVerif.Props.C15b"])
+    if okb:
+        rb = common.audit("C15b")
+        res["obligations"] += rb["obligations"]; res["discharged"] += rb["discharged"]
+        if rb["failed"]:
+            ctx.violation("proof obligations of Props/C15b.lean no longer check: " + "; ".join(f"{n} ({w})" for n, w in rb["failed"][:4]),
+                          {"broken_theorems": rb["failed"], "log": rb["log"][-3000:]}, no_input=True)
+    else:
+        res["obligations"] += ["renamed_roundtrip"]
+        partb = "not checked in this run: SamVerif.Props.C15b (imports C08's Props/C08.lean) does not build"
     rng = ctx.rng
     if not os.path.exists(common.harness_bin(PROP)) or not os.path.exists(common.driver_bin(PROP)):
         return ctx.finish(res, trusted=common.TRUSTED_COMMON)
@@ -122,10 +135,10 @@ def run(ctx):
         "evaluations": len(ssa_res) + nocc + nren + beh["compared"],
         "distinct_nontrivial": len(set(t for t, a, _ in q_res if re.search(r":\d+:\d+\+\d+", a))),
         "rule": "accepted generated programs (parameters, let, tuple / struct (shorthand and `as`) / variant patterns at every nesting, or-patterns over variants, struct patterns, tuples and nested or-patterns (first and later alternative), if-let, lambda parameters, captures in nested lambdas) x every local identifier occurrence as query / rename position; non-trivial = distinct module with at least one binding that has a use",
-        "samples": samples, "traces_validated_against_impl": len(ssa_res) + len(q_res), "histograms": hist,
+        "samples": samples, "traces_validated_against_impl": len(ssa_res) + len(q_res), "histograms": hist, "part_b_printer_roundtrip": partb,
         "partial": ["rename_preserves_resolution (general) is for modules accepted by scope analysis; rename_preserves_resolution_partial (name bound once) also covers rejected modules",
                     "rename theorems are stated on the event view and, via rename_tree_commutes / rename_member_commutes, on the trees of Model/Scope.lean; position search (location_cover.rs) and the printed text are reached by the q / rn protocols"],
-        "pending": ["printer round trip of the renamed module (C08/C09)"]})
+        "pending": ["renaming commutes with the formatter's regrouping (regroup ∘ relabel = relabel ∘ regroup) on C08's model"]})
     ctx.assumptions += ["new name is fresh and not a keyword (the property's precondition); rewrite::rename itself only checks lexical shape (fresh_check_unsound_counterexample)",
                         "single-module ServerState"]
     return ctx.finish(res, trusted=common.TRUSTED_COMMON + [
